@@ -272,9 +272,72 @@ def h_sync(a0: bytes, a1: bytes, a2: bytes, b0: bytes, b1: bytes, b2: bytes) -> 
     return run(body_sync, a0, a1, a2, b0, b1, b2)
 
 
+# ------------------------------------------------------------------ a replica kept by real reports on the real stack
+RS_WRITES = [("PUT", "a.ics", "xaq"), ("PUT", "n.ics", "xn"), ("DELETE", "a.ics", ""), ("DELETE", "b.ics", ""),
+             ("PUT", "a.ics", "xa"), ("PUT", "s p#\u00e9.ics", "xs"), ("PUT", "t.txt", "hello"), ("POST", "", "xq"),
+             ("PROPPATCH", "", "Home"), ("PUT", "b.ics", "xb")]
+
+
+def body_real_sync(w1, w2, w3):
+    """A client replica kept by REAL sync-collection reports (real XML, real WSGI entry point, real on-disk
+    repository; xv/real_c07.py): three writes chosen by the solver from a menu (rewrite, create, delete, rewrite back
+    to the first content, a name needing quoting, a plain file, POST, a property change, a no-op rewrite), with an
+    incremental report after each and a full one at the end: after every report the replica equals the collection,
+    nothing unchanged is listed, nothing unknown is removed."""
+    from xv.core import picks, untraced
+    ws = picks((w1, w2, w3), (RS_WRITES, RS_WRITES, RS_WRITES))
+    with untraced():
+        import json
+        import os
+        import subprocess
+        import xv
+        CALP = "/user/calendars/cal"
+
+        def mk(w):
+            m, name, tok = w
+            if m == "PROPPATCH":
+                return {"m": "PROPPATCH", "p": CALP + "/", "prop": "displayname", "b": tok}
+            ct = "text/calendar" if (name.endswith(".ics") or m == "POST") else "application/octet-stream"
+            return {"m": m, "p": CALP + "/" + name, "b": tok, "ct": ct if m in ("PUT", "POST") else None}
+
+        script = []
+        for w in ws:
+            script += [mk(w), {"m": "SYNC"}]
+        script += [{"m": "SYNC"}, {"m": "SYNC0"}]
+        job = {"cal": {"a.ics": "xa", "b.ics": "xb"}, "scripts": [script]}
+        p = subprocess.run(["/venv/bin/python", os.path.join(os.path.dirname(__file__), "..", "real_c07.py")],
+                           input=json.dumps(job), capture_output=True, text=True, cwd=xv.REPO,
+                           env={"PATH": os.environ.get("PATH", ""), "PYTHONPATH": xv.REPO}, timeout=300)
+        if p.returncode != 0:
+            raise RuntimeError("real sync driver failed: " + p.stderr[-600:])
+        recs = json.loads(p.stdout)[0]
+        bad = [r for r in recs if not r["ok"]]
+        if bad or len(recs) != 5:
+            ctx.LAST_EXC = repr(bad[:2] or recs)
+            return (False, "real-sync")
+        return (True, "replica:" + ws[0][0])
+
+
+def h_real_sync(w1: int, w2: int, w3: int) -> bool:
+    """
+    pre: 0 <= w1 < len(RS_WRITES) and 0 <= w2 < len(RS_WRITES) and 0 <= w3 < len(RS_WRITES)
+    post: _
+    """
+    return run(body_real_sync, w1, w2, w3)
+
+
 _B = {"quick": {"n": 2, "blen": 2}, "thorough": {"n": 3, "blen": 2}}
 
 HARNESSES = [
+    Harness("real_sync", h_real_sync, body_real_sync, classes=["replica:PUT", "replica:DELETE"],
+            budget={"quick": 120, "thorough": 900}, per_path_timeout={"quick": 60, "thorough": 60},
+            twin_budget={"quick": 60, "thorough": 120},
+            describe="a client replica kept by REAL sync-collection reports on the real stack (real XML, real on-disk "
+                     "repository): three writes from a menu of 10 with an incremental report after each, then a no-change "
+                     "report and a full one: the replica always equals the collection (xv/real_c07.py)",
+            encodes=["xandikos.sync.SyncCollectionReporter.report", "xandikos.web.StoreBasedCollection.iter_differences_since",
+                     "xandikos.store.git.GitStore.iter_changes", "xandikos.store.git.TreeGitStore._iterblobs",
+                     "xandikos.sync.SyncTokenProperty.get_value"]),
     Harness("sync", h_sync, body_sync,
             classes=[("valid:changes", ("bare", 0)), ("valid:nochange", ("tree", 0)), ("empty:changes", ("bare", 1)),
                      ("foreign", ("tree", 2)), ("nontree", ("bare", 4))],
